@@ -456,6 +456,7 @@ func main() {
 	writeEvidence(evidencePath, *prop, *tier, seed, nObl, nDis, samples, trusted, ex.assumptionList(), time.Since(t0).Seconds(), violations, extra)
 	fmt.Printf("property %s: %d obligations, %d discharged, %d violations, %d known findings (%.1fs)\n", *prop, nObl, nDis, violations, len(knownOut), time.Since(t0).Seconds())
 	if violations > 0 {
+		os.RemoveAll(tmp) // deferred calls do not run on os.Exit
 		os.Exit(1)
 	}
 }
